@@ -226,7 +226,7 @@ func init() {
 }
 
 func runC29(p *core.Prog, r *core.Report) {
-	r.Explain = "Decides, for every object RPC entry point (enumerated from the generated ObjectServiceServer interface plus the *Buffered variants), that every call that reads, writes or forwards object data (derived: any call that transitively reaches the handlers/storage/client/stream-send primitives, not counting status-only responses) is dominated on all CFG paths by: request signature verification of the handler's own request, meta-header/token validation, request-info extraction, basic ACL (+ sticky bit for Put) and eACL with only ErrNotMatched tolerated; chunk forwarding in the Put stream needs signature verification per message, and the put stream refuses chunks/close before a successful init. Tokens are attached to the request metadata only after their Verify* call succeeded. Not covered: the semantics of each guard, and the dynamic half (recording fakes)."
+	r.Explain = "Decides, for every object RPC entry point (enumerated from the generated ObjectServiceServer interface plus the *Buffered variants), that every call that reads, writes or forwards object data (derived: any call that transitively reaches the handlers/storage/client/stream-send primitives, not counting status-only responses) is dominated on all CFG paths by: request signature verification of the handler's own request, meta-header/token validation, request-info extraction, basic ACL (+ sticky bit for Put) and eACL with only ErrNotMatched tolerated; chunk forwarding in the Put stream needs signature verification per message, and the put stream refuses chunks/close before a successful init. Tokens are attached to the request metadata only after their Verify* call succeeded; the V2 session check re-evaluates the token's lifetime against chain time on every request and its cached part is time- and request-independent (R6). Not covered: the semantics of each guard, and the dynamic half (recording fakes)."
 	r1 := r.Rule("C29.R1", "every object-data effect in an object RPC handler is dominated by signature, meta-header/token, request-info, basic ACL(+sticky for Put) and eACL guards", 25)
 	runObjHandlers(p, r, r1, func(fn *ssa.Function, desc string) []string {
 		if strings.HasSuffix(desc, "putStream).forwardChunkRequest") {
@@ -293,6 +293,12 @@ func runC29(p *core.Prog, r *core.Report) {
 		}})
 	core.CheckSuccess(p, r5, core.SuccessRule{Fn: objSrv + ".handleRequestMetaHeader", ResultIdx: -1, MinReturns: 1,
 		Guards: []core.Guard{core.G("_handleRequestMetaHeader", core.ErrNil, objSrv+"._handleRequestMetaHeader")}})
+	// R6: the token validation the handlers rely on re-checks the V2 lifetime on every request
+	r6 := r.Rule("C29.R6", "the V2 session check behind handleRequestMetaHeader returns nil only after the per-request lifetime and verb checks, and caches nothing request- or time-dependent (shared with C30.R1/R6)", 9)
+	sessionV2PerRequestRule(p, r, r6)
+	if n := sessionCacheOnMissPurity(p, r6, p.FuncsIn("pkg/services/object/acl/v2")); n < 2 {
+		r.Fatalf("C29.R6: expected 2 sessions-cache call sites in acl/v2, found %d", n)
+	}
 	r.Trusted = append(r.Trusted, "the effect table (objPrimitiveEffect) and the status-wrapper cut list in rules/objsrv.go", "gRPC dispatch reaches only the enumerated methods (cmd/neofs-node replaceUnaryMethodHandler installs HeadBuffered/SearchV2Buffered)")
 }
 
